@@ -37,7 +37,14 @@ def main(argv=None):
     tier = args.tier if args.tier in ("quick", "thorough") else "quick"
     seed = int(os.environ.get("VERIF_SEED", "0") or 0)
     legs = args.legs.split(",") if args.legs else None
-    return runner.check(args.prop.upper(), tier, seed, legs)
+    try:
+        return runner.check(args.prop.upper(), tier, seed, legs)
+    except Exception:
+        import traceback
+
+        traceback.print_exc()
+        print("HARNESS-ERROR: runner failed")
+        return 2
 
 
 if __name__ == "__main__":
